@@ -9,4 +9,12 @@ CHECKS = {
    technique='exhaustive small-scope enumeration (all digraphs <=4 nodes x presentations) + Hypothesis random digraphs, oracle = Warshall mutual reachability',
    text='Every labelled digraph with <=4 nodes under 6 presentations and three construction routes is compared with the definition (mutual reachability via an independent transitive closure); random digraphs to 12 nodes. Exhaustive within scope, sampled beyond; no proof of absence.',
    note='Trusted: the 10-line Warshall closure in vp/graphs.py. CPython set/dict iteration order under PYTHONHASHSEED=0 determines successor order; other orders are reached through node renamings.'),
+ 'C01': dict(
+   technique='exhaustive small-scope enumeration (all total Kripke structures <=3 states x all CTL formulas up to an operator bound) + Hypothesis random cases, differential against an independent fixpoint reference semantics',
+   text='CTL.modelcheck is compared (both inclusions) with an independently written fixpoint evaluator on every total structure with <=3 states over {p,q} and every CTL formula with <=1 operator (<=2 operators on <=2 states), then on Hypothesis-generated structures (<=6 states) and formulas (depth <=4, n-ary and/or, text and object input). Exhaustive inside the scope, sampled beyond; not a proof.',
+   note='Trusted: vp/ref.py R-CTL (cross-checked against the product-based R-STAR on every random/replayed case). State naming/collection orders vary with the structure index.'),
+ 'C02': dict(
+   technique='exhaustive small-scope enumeration + Hypothesis random cases, differential against an independent generalised-Buchi product semantics; every excluded state certified by a lasso re-evaluated with a separate path evaluator',
+   text='LTL.modelcheck(K, A g) is compared with S minus R-STAR.E(not g): all structures <=2 states x all path formulas <=2 operators, all 3-state structures x <=1 operator (thorough), random structures <=5 states with <=3 temporal operators. Each exclusion carries a concrete ultimately periodic counterexample path verified by R-PATH.',
+   note='Trusted: vp/ref.py (R-STAR, R-PATH). Formula size is bounded (<=3 temporal operators) because the tableau under test is exponential; defects needing larger closures are out of reach.'),
 }
